@@ -141,7 +141,7 @@ var codecByName = map[string]*codec{}
 var modelledCodecs = map[string]bool{}
 
 func init() {
-	for _, n := range strings.Fields("witness cond rule signer attr tx header0 header1 block0 block1 stateroot extensible item itemprot mptnode " + os.Getenv("WIRE_MODELLED")) {
+	for _, n := range strings.Fields("witness cond rule signer attr tx header0 header1 block0 block1 stateroot extensible item itemprot mptnode nef " + os.Getenv("WIRE_MODELLED")) {
 		modelledCodecs[n] = true
 	}
 }
@@ -373,6 +373,7 @@ func initCodecs() {
 	// ---- NEF ----
 	c = reg(serCodec("nef", func() io.Serializable { return &nef.File{} }, func(g *G) any { return g.nef() }))
 	c.jsonRT = jsonVia[nef.File]
+	c.show = showOf(showNef)
 
 	// ---- stack items, notifications, execution results ----
 	for _, prot := range []bool{false, true} {
